@@ -545,6 +545,11 @@ func rC02AppendOrder(w *World, r *Report) {
 	}
 }
 
+func isAppendCall(v ssa.Value) bool {
+	c, ok := v.(*ssa.Call)
+	return ok && calleeName(c) == "builtin:append"
+}
+
 // forwardAccumulator: v is nil/empty, or a phi/append chain where every append has the accumulator as first operand.
 func forwardAccumulator(v ssa.Value, seen map[ssa.Value]bool) (bool, string) {
 	if seen[v] {
@@ -573,6 +578,13 @@ func forwardAccumulator(v ssa.Value, seen map[ssa.Value]bool) (bool, string) {
 						return true, ""
 					}
 				}
+				// a list that was itself built front to back (the conversions of one argument collected by a helper)
+				// and is appended whole keeps the order
+				if _, isPhi := x.Call.Args[1].(*ssa.Phi); isPhi || isAppendCall(x.Call.Args[1]) {
+					if ok, _ := forwardAccumulator(x.Call.Args[1], map[ssa.Value]bool{}); ok {
+						return true, ""
+					}
+				}
 				return false, "appended operand is not a fresh element literal: " + x.Call.Args[1].String()
 			}
 			return true, ""
@@ -580,6 +592,12 @@ func forwardAccumulator(v ssa.Value, seen map[ssa.Value]bool) (bool, string) {
 	case *ssa.Slice:
 		if a, ok := rootOfAddr(x.X).(*ssa.Alloc); ok && len(storesInto(a)) == 0 {
 			return true, ""
+		}
+		// a literal with elements is a list in the order written
+		if a, ok := x.X.(*ssa.Alloc); ok && x.Low == nil && x.High == nil {
+			if _, isArr := derefType(a.Type()).Underlying().(*types.Array); isArr && a.Comment == "slicelit" {
+				return true, ""
+			}
 		}
 	case *ssa.MakeSlice:
 		return true, ""
